@@ -25,23 +25,26 @@ PROP = {
     "parallel": NSHARDS,
     "min_events": 2000,
     "rule": ("Limits range over {0, 65536, 65537, 10^6, 10^9, 2^64-1}; controllers over bbr/standard, "
-             "bbr/conservative, bbr/aggressive, reno. c10-negotiate (real server x real client.NewClient, one "
-             "bubble per server configuration, clients concurrent): corner worlds covering every (server MaxTx, "
-             "client MaxRx) pair and every (client MaxTx, server MaxRx) pair with ignore-client-bandwidth on and off "
-             "(72 handshakes), plus quick: 30 PRNG server configurations x 5 PRNG client configurations (150 "
-             "handshakes); thorough: the full product server{MaxTx,MaxRx,ignore,cc} x client{MaxTx,MaxRx,cc} = "
-             "288 x 144 = 41472 handshakes. c10-rawclient (real server, raw h3 client): server MaxTx x ignore "
-             "(quick: controller rotating; thorough: x 4 controllers) x 31 Hysteria-CC-RX request values: absent, "
-             "empty, 0, 1, floor-1/floor/floor+1, 10^6, 10^9, 2^64-1, leading zeros, 2^64, 2^65, 10^32, signed, "
-             "non-numeric (abc, auto, 1e6, 0x10000, 1_000_000, 1.5, NaN, inner space, comma list, ;q=1), leading / "
-             "trailing whitespace. c10-fakeserver (real client, plain http3 server answering 233): client MaxTx x 23 "
-             "Hysteria-CC-RX response values (auto, absent, empty, 0, numbers, overflow, garbage, whitespace) x "
-             "Hysteria-UDP true/false/absent/garbage (quick: controller rotating; thorough: x 4 controllers). "
-             "Per handshake the oracle compares (a) the controller last installed on each end (hook: brutal+bps / "
-             "bbr+profile / reno) with the reference rule, (b) HandshakeInfo.Tx and EventLogger.Connect(tx) with the "
-             "rate installed on that end (0 unless brutal), (c) each side's Hysteria-CC-RX declaration with its "
-             "configured receive limit ('auto' when ignoring). A handshake is non-trivial when it completed with "
-             "233 and the hook reported for it; distinct = distinct (server config, client config or header value)."),
+             "bbr/conservative, bbr/aggressive, reno. One synctest bubble per server configuration ('world'), connection "
+             "attempts 2 ms (virtual) apart so about ten handshakes overlap. c10-negotiate (real server x real "
+             "client.NewClient): 12 corner worlds covering every (server MaxTx, client MaxRx) pair and every (client "
+             "MaxTx, server MaxRx) pair with ignore-client-bandwidth on and off (72 handshakes), plus quick: 30 PRNG "
+             "server configurations x 5 PRNG client configurations (150 handshakes); thorough: the full product "
+             "server{MaxTx,MaxRx,ignore,cc} x client{MaxTx,MaxRx,cc} = 288 x 144 = 41472 handshakes. c10-rawclient "
+             "(real server, raw h3 client): server MaxTx x ignore (quick: controller rotating, 12 worlds; thorough: x 4 "
+             "controllers, 48 worlds) x 31 Hysteria-CC-RX request values: absent, empty, 0, 1, 65535/65536/65537, "
+             "10^6, 10^9, 2^64-1, leading zeros, 2^64, 2^65, 10^32, signed (-1, -65536, +65536), non-numeric (abc, "
+             "auto, 1e6, 0x10000, 1_000_000, 1.5, 65536.0, NaN, inner space, comma list, ;q=1), leading/trailing "
+             "space or tab. c10-fakeserver (real client, plain http3 server answering 233): client MaxTx x 23 "
+             "Hysteria-CC-RX response values (auto, absent, empty, 0, 1, numbers, 2^64-1, overflow, garbage incl. "
+             "'automatic', whitespace-padded) x Hysteria-UDP true/false/absent/garbage rotating (quick: controller "
+             "rotating, 138 handshakes; thorough: x 4 controllers, 552). Per handshake the oracle compares (a) the "
+             "controller last installed on each end (hook: brutal+bps / bbr+profile / reno) with the reference rule, "
+             "(b) HandshakeInfo.Tx and every EventLogger.Connect(tx) with the rate installed on that end (0 unless "
+             "brutal), (c) each side's own Hysteria-CC-RX declaration with its configured receive limit ('auto' when "
+             "ignoring). A handshake is non-trivial when it completed with 233; distinct = distinct (server config, "
+             "client config or header value). Thorough tier splits the world list over 12 processes (index mod 12); "
+             "bubbles of one process run one after the other with the collector run between them."),
     "assumptions": [
         "the verif-tagged hook in core/internal/congestion/utils.go reports exactly what UseBrutal/UseBBR/UseConfigured "
         "hand to quic-go's SetCongestionControl (reno = default left in place); quic-go itself is trusted to use it",
